@@ -82,6 +82,7 @@ class Env:
         self.current_target = None
         self.touched = {}
         self.trusted = []           # human readable list of assumed contracts
+        self.site_hooks = {}        # (caller qualname, callee name) -> spec fn over the caller's locals
         self.abstract_regex = False  # regex membership as uninterpreted predicates (+ lemmas)
         self.abstract_sets = set()  # names of seq inputs only ever used through set(...)
         self.object_models = {}     # id(real module-level object) -> schema name
